@@ -23,6 +23,7 @@ META = {
     'outside': ['power_method with complex data AND a generalised problem (complex rational terms: solver does not finish) -- complex standard and real generalised are decided', 'lambda <= lambda_max, exactness at maximal ranks, convergence of the inverse iteration (Courant-Fischer / power-method theory on top of the '
                 'decided obligations)', 'ties in |lambda - sigma|', 'ARPACK/LAPACK internals', 'rounding'],
     'assumptions': ['eig contract A V = B V diag(w); Hermitian pencils have a real spectrum'],
+    'tv_all': ['ritz_bounds'],
     'tv_per_scenario': {'quick': 1, 'thorough': 1},
     'replay_random': 16,
     'timeout_ms': {'quick': 120000, 'thorough': 300000},
@@ -401,6 +402,13 @@ def ritz_bounds(ctx, dims, cplx, gevp):
     ov = abs(np.vdot(vtop, Bd @ x3v)) / np.sqrt(abs(np.vdot(vtop, Bd @ vtop)) * abs(np.vdot(x3v, Bd @ x3v)))
     ctx.eq('an exact dominant eigentensor as initial guess is returned with its eigenvalue (up to phase)', np.array([float(np.real(ev3)), float(ov)]),
            np.array([float(lam[-1]), 1.0]), tol=1e-7)
+    # an eigenvalue that is numerically zero (operator shifted so that an interior eigenvalue sits at 0), default solver 'eig', real=True:
+    # whatever is used to recognise "real" eigenvalues must be relative to the spectrum, not to the eigenvalue itself
+    if not gevp:
+        kz = len(lam) // 2
+        A0 = A + (-float(lam[kz])) * ttm.eye(dims)
+        evz, xz, _ = evp.als(A0, rand_vec(rmax), repeats=2, solver='eig', sigma=0.0, real=True)
+        ctx.eq('a maximal-rank guess finds the eigenvalue at the target even when it is numerically zero', float(np.real(evz)), 0.0, tol=1e-7)
     # inverse power iteration near an interior eigenvalue
     k = len(lam) // 2
     gap = min(lam[k] - lam[k - 1], lam[k + 1] - lam[k]) if 0 < k < len(lam) - 1 else 1.0
